@@ -9,11 +9,18 @@
      - add_charge_dataframe on an empty frame first converts the current array (entries > 0) to
        clusters, WITHOUT clearing _array; pd.concat(ignore_index=True) renumbers the index;
      - .array with a non-empty frame recomputes _array = convert_df_to_array() and caches it;
-       with an empty frame it returns the cached _array whatever happened before;
-     - convert_df_to_array bins with floor(pos / size) and writes through numba's UNCHECKED
-       indexing: an index in [-n, -1] wraps to n + index, any other index outside [0, n) is an
-       out-of-bounds write = outcome Corrupt (sticky);
-     - remove_from_frame never touches _array; remove_from_frame([]) removes everything (`if id_list`).
+       with an empty frame it returns the cached _array;
+     - convert_df_to_array bins with floor(pos / size), KEEPS ONLY the clusters whose two indices lie in
+       [0, row) x [0, col) (repair of C14-F4a/F4b) and hands them to the njit loop, whose indexing is
+       still modelled as numba's UNCHECKED indexing: an index in [-n, -1] wraps to n + index, any
+       other index outside [0, n) is an out-of-bounds write = outcome Corrupt (sticky) -- so that
+       "Corrupt is unreachable" is a theorem about the mask and not a property of the modelling;
+     - remove_from_frame zeroes _array when it turns a non-empty frame into an empty one (repair of
+       C14-F5); remove_from_frame([]) removes everything (`if id_list`).
+   The index expressions, the mask, the conversion threshold and the pixel-centre formulas are ALSO
+   available as parameters (record srcparams, regenerated from the source by translator/c14.py);
+   the parametrised twins (stepP, runP, read_afterP ...) are proved equal to the fixed model for every
+   parameter record satisfying params_ok (Proofs/ChargeSrc.v).
    No proofs in this file. *)
 From Coq Require Import ZArith QArith Qround List Bool.
 Import ListNotations.
@@ -84,6 +91,11 @@ Definition centres (g : geom) (a : matrix) : list cluster :=
       (seq 0 (g_cols g)))
     (seq 0 (g_rows g)).
 
+(* convert_df_to_array: the mask `inside` computed before the loop *)
+Definition in_range (n : nat) (k : Z) : bool := (0 <=? k)%Z && (k <? Z.of_nat n)%Z.
+Definition kept (g : geom) (c : cluster) : bool :=
+  in_range (g_rows g) (pix (g_ph g) (c_v c)) && in_range (g_cols g) (pix (g_pw g) (c_h c)).
+
 (* convert_df_to_array: the njit loop *)
 Definition bin1 (g : geom) (m : matrix) (c : cluster) : option matrix :=
   match wrap (g_rows g) (pix (g_ph g) (c_v c)), wrap (g_cols g) (pix (g_pw g) (c_h c)) with
@@ -100,6 +112,10 @@ Fixpoint bin (g : geom) (m : matrix) (cs : list cluster) : option matrix :=
 
 Record state := { st_arr : matrix; st_frame : frame_t }.
 
+(* convert_df_to_array as a whole: mask, then loop over what is kept, starting from zeros *)
+Definition to_array (g : geom) (cs : list cluster) : option matrix :=
+  bin g (zeros (g_rows g) (g_cols g)) (filter (kept g) cs).
+
 Definition renumber (cs : list cluster) : frame_t := combine (map Z.of_nat (seq 0 (length cs))) cs.
 Definition fcl (f : frame_t) : list cluster := map snd f.
 Definition init (g : geom) : state := {| st_arr := zeros (g_rows g) (g_cols g); st_frame := [] |}.
@@ -115,6 +131,13 @@ Definition add_frame (g : geom) (s : state) (cs : list cluster) : state :=
 
 Definition id_in (ids : list Z) (k : Z) : bool := existsb (Z.eqb k) ids.
 
+(* remove_from_frame: the frame becomes f'; when that empties a non-empty frame the array is zeroed *)
+Definition removed (g : geom) (s : state) (f' : frame_t) : state :=
+  match st_frame s, f' with
+  | _ :: _, [] => {| st_arr := zeros (g_rows g) (g_cols g); st_frame := [] |}
+  | _, _ => {| st_arr := st_arr s; st_frame := f' |}
+  end.
+
 Definition step (g : geom) (s : state) (o : op) : option state * obs :=
   match o with
   | AddArray a =>
@@ -128,16 +151,15 @@ Definition step (g : geom) (s : state) (o : op) : option state * obs :=
   | Read =>
       match st_frame s with
       | [] => (Some s, OArr (st_arr s))
-      | f => match bin g (zeros (g_rows g) (g_cols g)) (fcl f) with
+      | f => match to_array g (fcl f) with
              | Some m => (Some {| st_arr := m; st_frame := f |}, OArr m)
              | None => (None, OCorrupt)
              end
       end
   | ReadFrame => (Some s, OUnit)
-  | RemoveAll => (Some {| st_arr := st_arr s; st_frame := [] |}, OUnit)
-  | Remove [] => (Some {| st_arr := st_arr s; st_frame := [] |}, OUnit)
-  | Remove ids =>
-      (Some {| st_arr := st_arr s; st_frame := filter (fun p => negb (id_in ids (fst p))) (st_frame s) |}, OUnit)
+  | RemoveAll => (Some (removed g s []), OUnit)
+  | Remove [] => (Some (removed g s []), OUnit)
+  | Remove ids => (Some (removed g s (filter (fun p => negb (id_in ids (fst p))) (st_frame s))), OUnit)
   | Reset => (Some (init g), OUnit)
   end.
 
@@ -164,19 +186,133 @@ Fixpoint run (g : geom) (s : option state) (ops : list op) : list (obs * frame_t
       end
   end.
 
+(* ------------------------------------------------------------------ the same machine over regenerated source parameters *)
+
+(* What translator/c14.py reads from pyxel/data_structure/charge.py and pyxel/detectors/geometry.py. *)
+Record srcparams := {
+  sp_iv   : Q -> Q -> Q -> Q -> Z;     (* position_ver position_hor pixel_vert_size pixel_horz_size |-> FIRST subscript of the njit loop *)
+  sp_ih   : Q -> Q -> Q -> Q -> Z;     (* same arguments |-> SECOND subscript of the njit loop *)
+  sp_keep : Z -> Z -> Z -> Z -> bool;  (* first second geo.row geo.col |-> is the cluster handed to the loop? *)
+  sp_thr  : Q -> bool;                 (* convert_array_to_df: is this array entry converted to a cluster? *)
+  sp_cv   : Q -> Q -> nat -> Q;        (* pixel_vert_size pixel_horz_size k |-> position_ver given to the cluster made from a pixel of row k *)
+  sp_ch   : Q -> Q -> nat -> Q         (* pixel_vert_size pixel_horz_size k |-> position_hor given to the cluster made from a pixel of column k *)
+}.
+
+(* float -> int conversions the translator may meet in an index expression *)
+Definition Qtrunc (x : Q) : Z := if Qle_bool 0 x then Qfloor x else Qceiling x.           (* .astype(int), np.trunc *)
+Definition Qrint (x : Q) : Z :=                                                            (* np.rint / np.round: half to even *)
+  let f := Qfloor x in
+  let d := x - inject_Z f in
+  if Qle_bool d (1 # 2) then (if Qeq_bool d (1 # 2) then (if Z.even f then f else f + 1)%Z else f) else (f + 1)%Z.
+
+Definition std_params : srcparams :=
+  {| sp_iv := fun pv _ sv _ => pix sv pv;
+     sp_ih := fun _ ph _ sh => pix sh ph;
+     sp_keep := fun iv ih r c => ((0 <=? iv)%Z && (iv <? r)%Z) && ((0 <=? ih)%Z && (ih <? c)%Z);
+     sp_thr := gt0;
+     sp_cv := fun sv _ k => centre sv k;
+     sp_ch := fun _ sh k => centre sh k |}.
+
+(* the regenerated parameters say what the fixed model says (pointwise; discharged in Properties/C14.v
+   for the record generated from the current source) *)
+Definition params_ok (P : srcparams) : Prop :=
+  (forall pv ph sv sh, sp_iv P pv ph sv sh = pix sv pv) /\
+  (forall pv ph sv sh, sp_ih P pv ph sv sh = pix sh ph) /\
+  (forall iv ih r c, sp_keep P iv ih r c = ((0 <=? iv)%Z && (iv <? r)%Z) && ((0 <=? ih)%Z && (ih <? c)%Z)) /\
+  (forall x, sp_thr P x = gt0 x) /\
+  (forall sv sh k, sp_cv P sv sh k = centre sv k) /\
+  (forall sv sh k, sp_ch P sv sh k = centre sh k).
+
+Section WithSourceParams.
+Variable P : srcparams.
+
+Definition centresP (g : geom) (a : matrix) : list cluster :=
+  flat_map (fun i =>
+    flat_map (fun j =>
+      let x := mget a i j in
+      if sp_thr P x then [{| c_n := x; c_v := sp_cv P (g_ph g) (g_pw g) i; c_h := sp_ch P (g_ph g) (g_pw g) j |}] else [])
+      (seq 0 (g_cols g)))
+    (seq 0 (g_rows g)).
+
+Definition ivP (g : geom) (c : cluster) : Z := sp_iv P (c_v c) (c_h c) (g_ph g) (g_pw g).
+Definition ihP (g : geom) (c : cluster) : Z := sp_ih P (c_v c) (c_h c) (g_ph g) (g_pw g).
+Definition keptP (g : geom) (c : cluster) : bool :=
+  sp_keep P (ivP g c) (ihP g c) (Z.of_nat (g_rows g)) (Z.of_nat (g_cols g)).
+
+Definition bin1P (g : geom) (m : matrix) (c : cluster) : option matrix :=
+  match wrap (g_rows g) (ivP g c), wrap (g_cols g) (ihP g c) with
+  | Some i, Some j => Some (mupd m i j (fun x => x + c_n c))
+  | _, _ => None
+  end.
+Fixpoint binP (g : geom) (m : matrix) (cs : list cluster) : option matrix :=
+  match cs with
+  | [] => Some m
+  | c :: t => match bin1P g m c with Some m' => binP g m' t | None => None end
+  end.
+Definition to_arrayP (g : geom) (cs : list cluster) : option matrix :=
+  binP g (zeros (g_rows g) (g_cols g)) (filter (keptP g) cs).
+
+Definition add_frameP (g : geom) (s : state) (cs : list cluster) : state :=
+  match st_frame s with
+  | [] => if all_zero (st_arr s)
+          then {| st_arr := st_arr s; st_frame := renumber cs |}
+          else {| st_arr := st_arr s; st_frame := renumber (centresP g (st_arr s) ++ cs) |}
+  | f => {| st_arr := st_arr s; st_frame := renumber (fcl f ++ cs) |}
+  end.
+
+Definition stepP (g : geom) (s : state) (o : op) : option state * obs :=
+  match o with
+  | AddArray a =>
+      if shape_ok (g_rows g) (g_cols g) a then
+        match st_frame s with
+        | [] => (Some {| st_arr := madd (st_arr s) a; st_frame := [] |}, OUnit)
+        | _ => (Some (add_frameP g s (centresP g a)), OUnit)
+        end
+      else (Some s, ORaise)
+  | AddClusters cs => (Some (add_frameP g s cs), OUnit)
+  | Read =>
+      match st_frame s with
+      | [] => (Some s, OArr (st_arr s))
+      | f => match to_arrayP g (fcl f) with
+             | Some m => (Some {| st_arr := m; st_frame := f |}, OArr m)
+             | None => (None, OCorrupt)
+             end
+      end
+  | ReadFrame => (Some s, OUnit)
+  | RemoveAll => (Some (removed g s []), OUnit)
+  | Remove [] => (Some (removed g s []), OUnit)
+  | Remove ids => (Some (removed g s (filter (fun p => negb (id_in ids (fst p))) (st_frame s))), OUnit)
+  | Reset => (Some (init g), OUnit)
+  end.
+
+Definition exec1P (g : geom) (s : option state) (o : op) : option state :=
+  match s with None => None | Some s0 => fst (stepP g s0 o) end.
+Definition execP (g : geom) (s : option state) (ops : list op) : option state := fold_left (exec1P g) ops s.
+Definition read_ofP (g : geom) (s : option state) : obs :=
+  match s with None => OCorrupt | Some s0 => snd (stepP g s0 Read) end.
+Definition read_afterP (g : geom) (ops : list op) : obs := read_ofP g (execP g (Some (init g)) ops).
+Definition frame_afterP (g : geom) (ops : list op) : frame_t :=
+  match execP g (Some (init g)) ops with Some s => st_frame s | None => [] end.
+
+Fixpoint runP (g : geom) (s : option state) (ops : list op) : list (obs * frame_t) :=
+  match ops with
+  | [] => []
+  | o :: t =>
+      match s with
+      | None => (OCorrupt, []) :: runP g None t
+      | Some s0 =>
+          let r := stepP g s0 o in
+          (snd r, match fst r with Some x => st_frame x | None => [] end) :: runP g (fst r) t
+      end
+  end.
+End WithSourceParams.
+
 (* ------------------------------------------------------------------ the specification *)
 
 (* (1) the accumulator: per-pixel sum of everything added since the last reset.  A cluster is
    credited to exactly the pixel (floor(v/ph), floor(h/pw)); clusters outside are credited nowhere. *)
 Definition hit_exact (g : geom) (c : cluster) (i j : nat) : bool :=
   (pix (g_ph g) (c_v c) =? Z.of_nat i)%Z && (pix (g_pw g) (c_h c) =? Z.of_nat j)%Z.
-
-(* what the code's unchecked indexing does instead (used to describe the actual behaviour) *)
-Definition hit_wrap (g : geom) (c : cluster) (i j : nat) : bool :=
-  match wrap (g_rows g) (pix (g_ph g) (c_v c)), wrap (g_cols g) (pix (g_pw g) (c_h c)) with
-  | Some i', Some j' => (i' =? i)%nat && (j' =? j)%nat
-  | _, _ => false
-  end.
 
 Definition credit (hit : cluster -> nat -> nat -> bool) (cs : list cluster) (i j : nat) : Q :=
   fold_right (fun c acc => (if hit c i j then c_n c else 0) + acc) 0 cs.
@@ -192,7 +328,6 @@ Definition acc_step (g : geom) (hit : cluster -> nat -> nat -> bool)
 Definition acc_of (g : geom) (hit : cluster -> nat -> nat -> bool) (ops : list op) : nat -> nat -> Q :=
   fold_left (acc_step g hit) ops (fun _ _ => 0).
 Definition spec_acc (g : geom) (ops : list op) := acc_of g (hit_exact g) ops.
-Definition wrap_acc (g : geom) (ops : list op) := acc_of g (hit_wrap g) ops.
 
 (* (2) the ideal two-representation container (adds removals to the accumulator):
    charge is MOVED between the representations, reads are pure, outside clusters are masked. *)
@@ -261,24 +396,31 @@ Definition op_arrays_nonneg (o : op) : bool := match o with AddArray a => nonneg
 Definition inside (g : geom) (c : cluster) : bool :=
   Qle_bool 0 (c_v c) && negb (Qle_bool (inject_Z (Z.of_nat (g_rows g)) * g_ph g) (c_v c)) &&
   Qle_bool 0 (c_h c) && negb (Qle_bool (inject_Z (Z.of_nat (g_cols g)) * g_pw g) (c_h c)).
-Definition wrappable (g : geom) (c : cluster) : bool :=
-  match wrap (g_rows g) (pix (g_ph g) (c_v c)), wrap (g_cols g) (pix (g_pw g) (c_h c)) with
-  | Some _, Some _ => true
-  | _, _ => false
-  end.
 Definition op_clusters (P : cluster -> bool) (o : op) : bool :=
   match o with AddClusters cs => forallb P cs | _ => true end.
 Definition geom_ok (g : geom) : bool := negb (Qle_bool (g_ph g) 0) && negb (Qle_bool (g_pw g) 0).
 
-(* a removal "empties" when it turns a non-empty frame into an empty one *)
-Fixpoint removal_safe (g : geom) (s : state) (ops : list op) : bool :=
-  match ops with
-  | [] => true
-  | o :: t =>
-      let s' := fst (ideal_step g s o) in
-      (if is_removal o then match st_frame s, st_frame s' with _ :: _, [] => false | _, _ => true end else true)
-      && removal_safe g s' t
-  end.
+(* removals: the clusters a `remove_from_frame(ids)` takes away from the live frame f *)
+Definition selected (ids : list Z) (f : frame_t) : frame_t :=
+  match ids with [] => f | _ => filter (fun p => id_in ids (fst p)) f end.
+Definition removal_ids (o : op) : option (list Z) :=
+  match o with RemoveAll => Some [] | Remove ids => Some ids | _ => None end.
+(* the `.frame` after the operations `ops` on a fresh container *)
+Definition frame_after (g : geom) (ops : list op) : frame_t :=
+  match exec g (Some (init g)) ops with Some s => st_frame s | None => [] end.
+
+(* (3) the accumulator for ALL sequences, removals included ("the ledger"): additions are credited as
+   in (1); a removal debits exactly the clusters it takes away -- those of the live table of labelled
+   clusters (kept by the ideal container (2)) whose label is listed, all of them for an empty list. *)
+Definition ledger_step (g : geom) (st : (nat -> nat -> Q) * state) (o : op) : (nat -> nat -> Q) * state :=
+  (match removal_ids o with
+   | Some ids => fun i j => fst st i j - credit (hit_exact g) (fcl (selected ids (st_frame (snd st)))) i j
+   | None => acc_step g (hit_exact g) (fst st) o
+   end,
+   fst (ideal_step g (snd st) o)).
+Definition ledger_of (g : geom) (ops : list op) : (nat -> nat -> Q) * state :=
+  fold_left (ledger_step g) ops (fun _ _ => 0, init g).
+Definition spec_ledger (g : geom) (ops : list op) : nat -> nat -> Q := fst (ledger_of g ops).
 
 (* the judge: what every Read must return *)
 Definition spec_trace (g : geom) (ops : list op) : list obs :=
@@ -304,27 +446,48 @@ Definition obs_eqb (a b : obs) : bool :=
   | _, _ => false
   end.
 
-(* k_checked = the implementation ran with numba's bounds check on: an out-of-bounds access is then
-   observed as OCorrupt (IndexError) and nothing is corrupted.  Otherwise (default configuration,
-   isolated subprocess) whatever follows an out-of-bounds write of the model is undefined. *)
-Record ccase := { k_g : geom; k_ops : list op; k_checked : bool; k_obs : list (obs * frame_t) }.
+(* frames observed with inexact pixel sizes (k_loose): the implementation computes pixel centres in
+   binary64 (k*s rounded, + s/2 rounded) while the model computes them exactly; positions are then
+   compared by the pixel they fall into, labels and numbers exactly *)
+Definition cluster_eqb_loose (g : geom) (a b : cluster) : bool :=
+  Qeq_bool (c_n a) (c_n b) && (pix (g_ph g) (c_v a) =? pix (g_ph g) (c_v b))%Z
+  && (pix (g_pw g) (c_h a) =? pix (g_pw g) (c_h b))%Z.
+Definition frame_eqb_loose (g : geom) : frame_t -> frame_t -> bool :=
+  list_eqb (fun p q => Z.eqb (fst p) (fst q) && cluster_eqb_loose g (snd p) (snd q)).
+
+(* k_checked = the implementation ran with numba's bounds check on (or without the JIT): an
+   out-of-bounds access is then observed as OCorrupt (IndexError) and nothing is corrupted.  Otherwise
+   (default configuration, isolated subprocess) whatever follows an out-of-bounds write of the model
+   is undefined. *)
+(* The observed frames are written as differences: (k, tail) = the first k rows of the frame observed after
+   the previous op (initially none), followed by `tail` -- most ops append to the frame or leave it alone, so
+   the case files stay linear in the number of clusters. *)
+Fixpoint expand_obs (prev : frame_t) (l : list (obs * (nat * frame_t))) : list (obs * frame_t) :=
+  match l with
+  | [] => []
+  | (o, (k, t)) :: r => let f := firstn k prev ++ t in (o, f) :: expand_obs f r
+  end.
+Record ccase := { k_g : geom; k_ops : list op; k_checked : bool; k_loose : bool;
+                  k_obs_d : list (obs * (nat * frame_t)) }.
+Definition k_obs (k : ccase) : list (obs * frame_t) := expand_obs [] (k_obs_d k).
 
 Definition has_corrupt (t : list (obs * frame_t)) : bool :=
   existsb (fun p => match fst p with OCorrupt => true | _ => false end) t.
 
-Fixpoint trace_eqb (checked : bool) (model impl : list (obs * frame_t)) : bool :=
+Fixpoint trace_eqb (feq : frame_t -> frame_t -> bool) (checked : bool) (model impl : list (obs * frame_t)) : bool :=
   match model, impl with
   | [], [] => true
   | (OCorrupt, _) :: _, (o, _) :: _ =>
       if checked then match o with OCorrupt => true | _ => false end else true
   | _ :: _, [] => negb checked && has_corrupt model   (* the isolated process died: only an out-of-bounds
                                                          write of the model explains that *)
-  | (a, f) :: m', (b, f') :: i' => obs_eqb a b && frame_eqb f f' && trace_eqb checked m' i'
+  | (a, f) :: m', (b, f') :: i' => obs_eqb a b && feq f f' && trace_eqb feq checked m' i'
   | _, _ => false
   end.
 
-Definition case_mismatch (k : ccase) : bool :=
-  negb (trace_eqb (k_checked k) (run (k_g k) (Some (init (k_g k))) (k_ops k)) (k_obs k)).
+Definition case_mismatch (P : srcparams) (k : ccase) : bool :=
+  negb (trace_eqb (if k_loose k then frame_eqb_loose (k_g k) else frame_eqb) (k_checked k)
+          (runP P (k_g k) (Some (init (k_g k))) (k_ops k)) (k_obs k)).
 
 (* first Read (1-based op position) whose observed value is not what the specification demands;
    a missing observation (crash of the isolated process) counts as a wrong one *)
@@ -355,7 +518,7 @@ Fixpoint indices_where {A} (p : A -> bool) (l : list A) (i : Z) : list Z :=
   | [] => []
   | x :: t => if p x then i :: indices_where p t (i + 1)%Z else indices_where p t (i + 1)%Z
   end.
-Definition mismatches (cs : list ccase) : list Z := indices_where case_mismatch cs 0%Z.
+Definition mismatches (P : srcparams) (cs : list ccase) : list Z := indices_where (case_mismatch P) cs 0%Z.
 Definition violations (cs : list ccase) : list Z := indices_where case_violates cs 0%Z.
 Definition first_bads (cs : list ccase) : list Z := map case_first_bad cs.
 Definition selfcheck (cs : list ccase) : list Z := indices_where case_selfcheck_bad cs 0%Z.
